@@ -85,6 +85,27 @@ PER_KEY_UPDATERS = {"update_current_index"}
 SLOT_PER_ELEMENT = {("greedy.block_generation.SMSgreedy.target", "for L1 in L2")}
 
 
+# functions with exactly one order-observing site, triaged above: the entry applies to that site in whatever spelling
+TRIAGED_SINGLE_SITE = {q: v for (q, _), v in TRIAGED.items() if q.endswith(".toposort_instr_dependencies")}
+
+
+def _only_per_key_updates(loop):
+    lv = {x.id for x in ast.walk(loop.target) if isinstance(x, ast.Name)}
+
+    def ok(stmts):
+        for st in stmts:
+            if isinstance(st, ast.For) and not st.orelse:
+                if not ok(st.body):
+                    return False
+            elif isinstance(st, ast.Expr) and isinstance(st.value, ast.Call) and call_name(st.value) in PER_KEY_UPDATERS and st.value.args \
+                    and isinstance(st.value.args[0], ast.Name) and st.value.args[0].id in lv:
+                continue
+            else:
+                return False
+        return bool(stmts)
+    return ok(loop.body)
+
+
 def _slot_per_element(loop):
     lv = {x.id for x in ast.walk(loop.target) if isinstance(x, ast.Name)}
     return len(loop.body) == 1 and isinstance(loop.body[0], ast.AugAssign) and isinstance(loop.body[0].target, ast.Subscript) \
@@ -149,6 +170,16 @@ def rule_a(ctx, out):
                 out.ok(rec)
                 continue
             tri = TRIAGED.get(key)
+            if tri is None and isinstance(s["node"], ast.For) and _only_per_key_updates(s["node"]) and _per_key_minmax(ctx):
+                # structural: the body only performs per-key min/max updates keyed by the loop variable (commutative, idempotent)
+                rec["auto"] = "insensitive"
+                rec["why"] = "body only calls the per-key min/max updater with the loop variable as key"
+                out.ok(rec)
+                continue
+            if tri is None and f.qual in TRIAGED_SINGLE_SITE and len([x for x in sites_in_function(f, st) if x["verdict"] != "insensitive"]) == 1:
+                # the one order-observing site of this function, however it is written (named locals, comprehension or constructor)
+                tri = TRIAGED_SINGLE_SITE[f.qual]
+                key = next(k_ for k_ in TRIAGED if k_[0] == f.qual)
             if tri is None:
                 out.bad(f"set-order:{f.qual.split('.', 1)[-1]}:{s['consumer'][:70]}",
                         f"{s['consumer']} in {f.qual} observes the iteration order of a set ({s['why']}); the order depends on the string "
@@ -303,6 +334,69 @@ def rule_b(ctx, out):
                 else:
                     out.bad(f"clock-escapes:{f.qual.split('.', 1)[-1]}", f"clock value {short(c)} is used in `{short(st)}` (may reach an output)", where(f, c))
     out.samples.append({"clock_reads_checked": n_clock})
+    # (3b) a measured time never decides anything: interprocedural taint (clock call -> locals -> returned tuple positions -> the
+    # callers' unpacked locals, to a fixpoint); a tainted value in the test of an if / while / conditional expression / assert makes
+    # the result depend on how fast the machine was
+    ret_taint = {}          # qualname -> set of tainted return positions (None = the whole value)
+
+    def clock_call(c):
+        cn = call_name(c)
+        return cn in CLOCK_NAMES and (isinstance(c.func, ast.Name) or (isinstance(c.func, ast.Attribute) and isinstance(c.func.value, ast.Name)
+                                                                      and c.func.value.id in ("time", "resource", "datetime", "timeit")))
+
+    def tainted_locals(f):
+        t = set()
+        changed = True
+        while changed:
+            changed = False
+            for n in own_nodes(f.node):
+                if not isinstance(n, (ast.Assign, ast.AugAssign)):
+                    continue
+                v = n.value
+                targets = n.targets if isinstance(n, ast.Assign) else [n.target]
+                whole = any(isinstance(x, ast.Call) and clock_call(x) for x in ast.walk(v)) or any(isinstance(x, ast.Name) and x.id in t for x in ast.walk(v))
+                pos = set()
+                if isinstance(v, ast.Call):
+                    for callee in ctx.r.resolve_call(f, v):
+                        pos |= ret_taint.get(callee.qual, set())
+                for tg in targets:
+                    if isinstance(tg, ast.Name) and (whole or None in pos) and tg.id not in t:
+                        t.add(tg.id)
+                        changed = True
+                    elif isinstance(tg, ast.Tuple):
+                        for i_, e in enumerate(tg.elts):
+                            if isinstance(e, ast.Name) and (whole or i_ in pos or None in pos) and e.id not in t:
+                                t.add(e.id)
+                                changed = True
+        return t
+    for _ in range(4):
+        for q, f in reach.items():
+            t = tainted_locals(f)
+            pos = set()
+            for r in own_nodes(f.node):
+                if isinstance(r, ast.Return) and r.value is not None:
+                    def tn(e):
+                        return any(isinstance(x, ast.Name) and x.id in t for x in ast.walk(e)) or any(isinstance(x, ast.Call) and clock_call(x) for x in ast.walk(e))
+                    if isinstance(r.value, ast.Tuple):
+                        pos |= {i_ for i_, e in enumerate(r.value.elts) if tn(e)}
+                    elif tn(r.value):
+                        pos.add(None)
+            ret_taint[q] = pos
+    n_tests = 0
+    for q, f in sorted(reach.items()):
+        t = tainted_locals(f)
+        if not t:
+            continue
+        for n in own_nodes(f.node):
+            test = n.test if isinstance(n, (ast.If, ast.While, ast.IfExp, ast.Assert)) else None
+            if test is None:
+                continue
+            n_tests += 1
+            used = sorted({x.id for x in ast.walk(test) if isinstance(x, ast.Name) and x.id in t})
+            if used:
+                out.bad(f"clock-decides-control-flow:{f.qual.split('.', 1)[-1]}:{'+'.join(used)}", f"{f.qual}: `{short(test, 70)}` tests {used}, measured CPU / wall-clock time: "
+                        f"what the tool emits depends on the speed and load of the machine", where(f, n))
+    out.samples.append({"functions_with_measured_times": sum(1 for q_ in ret_taint if ret_taint[q_]), "tests_examined_in_them": n_tests})
     # (4) os.listdir: only membership tests
     for q, f in sorted(reach.items()):
         for c in calls_in(f.node, "listdir"):
